@@ -7,6 +7,7 @@ import LncModel.TraceCheck
 import LncModel.Chunk
 import LncModel.Endpoint
 import LncModel.Timeout
+import LncModel.Handshake
 /-
   Line-protocol driver: one operation per input line, one canonical result per
   output line.  Imports model files only (no Mathlib, no proofs) so it links as
@@ -148,6 +149,9 @@ structure DState where
   failed : Bool := false
   tm : TM := TM.new false 1000000000 1000000000 5 100
   pct : Float32 := 0.5
+  hsCli : Hs.Cli × List Msg := (.fail "uninit", [])
+  hsSrv : List (Hs.Srv × List Msg) := []
+  hsFailed : Bool := false
 
 def parseKind (s : String) : Option Kind :=
   match s with
@@ -205,6 +209,75 @@ def step (st : DState) (toks : List String) : DState × String :=
         if ms.isPrefixOf model then .ok d
         else .error s!"Recv results ({ms.length}) are not a prefix of the model's delivered messages ({model.length})"
     | _, _ => (st, "bad-op")
+  | ["hs.init", n] =>
+    match n.toNat? with
+    | some n => ({ st with hsCli := Hs.cliStart n, hsSrv := [(Hs.srvStart, [])], hsFailed := false }, "ok")
+    | none => (st, "bad-op")
+  | ["hs.c.recv", hex] =>
+    if st.hsFailed then (st, "ok") else
+    match bytesOfHex hex with
+    | some b =>
+      let (c, em) := Hs.cliStep (Lnc.Facts.guard_DATA.getD 0) st.hsCli.1 (.recv b)
+      ({ st with hsCli := (c, st.hsCli.2 ++ em) }, "ok")
+    | none => (st, "bad-op")
+  | ["hs.c.emit", hex] =>
+    if st.hsFailed then (st, "ok") else
+    match bytesOfHex hex with
+    | some b =>
+      -- an emission with nothing pending can only be the SYN re-sent after a timeout
+      let (c, pend) := match st.hsCli.2 with
+        | [] => let (c', em) := Hs.cliStep (Lnc.Facts.guard_DATA.getD 0) st.hsCli.1 .timeout; (c', em)
+        | p => (st.hsCli.1, p)
+      match pend with
+      | m :: rest =>
+        if serialize m = b then ({ st with hsCli := (c, rest) }, "ok")
+        else ({ st with hsFailed := true }, s!"FAIL client emitted {hex}, model expects {hexOrDash (serialize m)}")
+      | [] => ({ st with hsFailed := true }, s!"FAIL client emitted {hex}, model expects nothing")
+    | none => (st, "bad-op")
+  | ["hs.c.ret", res] =>
+    if st.hsFailed then (st, "ok") else
+    match st.hsCli.1, res with
+    | .done _, "ok" => (st, "ok")
+    | .fail _, "err" => (st, "ok")
+    | .waiting _, "cancelled" => (st, "ok")
+    | c, r => ({ st with hsFailed := true }, s!"FAIL client returned {r} in model state {repr c}")
+  | ["hs.s.recv", hex] =>
+    if st.hsFailed then (st, "ok") else
+    match bytesOfHex hex with
+    | some b =>
+      let g := Lnc.Facts.guard_DATA.getD 0
+      let next := st.hsSrv.flatMap fun (s, pend) =>
+        let direct := let (s', em) := Hs.srvStep g s (.recv b); (s', pend ++ em)
+        match s with
+        | .s1 _ _ =>
+          let (sT, _) := Hs.srvStep g s .timeout
+          let viaTimeout := let (s', em) := Hs.srvStep g sT (.recv b); (s', pend ++ em)
+          [direct, viaTimeout]
+        | _ => [direct]
+      ({ st with hsSrv := next.eraseDups }, "ok")
+    | none => (st, "bad-op")
+  | ["hs.s.emit", hex] =>
+    if st.hsFailed then (st, "ok") else
+    match bytesOfHex hex with
+    | some b =>
+      let next := st.hsSrv.filterMap fun (s, pend) =>
+        match pend with
+        | m :: rest => if serialize m = b then some (s, rest) else none
+        | [] => none
+      if next.isEmpty then ({ st with hsFailed := true }, s!"FAIL server emitted {hex}: no model state expects it")
+      else ({ st with hsSrv := next }, "ok")
+    | none => (st, "bad-op")
+  | ["hs.s.ret", res, n] =>
+    if st.hsFailed then (st, "ok") else
+    let ok := st.hsSrv.any fun (s, pend) =>
+      pend.isEmpty && (match s, res with
+        | .done k, "ok" => n.toNat? == some k
+        | .fail _, "err" => true
+        | .s0 _ _, "cancelled" => true
+        | .s1 _ _, "cancelled" => true
+        | _, _ => false)
+    if ok then (st, "ok")
+    else ({ st with hsFailed := true }, s!"FAIL server returned {res} {n}; model states {repr (st.hsSrv.map (·.1))}")
   | ["tm.new", static, resend, hs, mult, freq, pctBits] =>
     match parseBool static, resend.toInt?, hs.toInt?, mult.toInt?, freq.toNat?, pctBits.toNat? with
     | some st', some r, some h, some m, some f, some pb =>
